@@ -16,6 +16,8 @@ mod c10;
 mod c11;
 mod c12;
 mod c13;
+mod c14;
+mod c15;
 
 use common::*;
 
@@ -43,6 +45,8 @@ fn main() {
         "c12" => c12::run(&args),
         "c13" => c13::run(&args),
         "c13truth" => c13::run_truth(&args),
+        "c14" => c14::run(&args),
+        "c15" => c15::run(&args),
         "c05depth" => c05::run_depth(&args),
         "c05case" => c05::run_one(&args),
         other => {
